@@ -333,3 +333,57 @@ Qed.
 
 End RetrProofs.
 
+
+(** * the code as found (no length bound in the pyramid check) *)
+Section Unbounded.
+
+Variable H : list N -> list N -> list N.
+Variable chunk_size span_size : N.
+
+Lemma takeN_app_le {A} (n : N) (l e : list A) : n <= lenN l -> takeN n (l ++ e) = takeN n l.
+Proof.
+  intros Hn. rewrite !takeN_firstn, firstn_app. rewrite lenN_length in Hn.
+  replace (N.to_nat n - length l)%nat with 0%nat by lia. cbn [firstn]. now rewrite app_nil_r.
+Qed.
+
+(** for EVERY hash function: an honest chunk of maximal size followed by any
+    trailing bytes passes the unbounded check (the hasher, whose capacity is
+    the chunk size, drops the tail), is Put, and is not a valid chunk *)
+Lemma unbounded_accepts_extension (a p e : list N) :
+  cac_valid H chunk_size span_size a p ->
+  lenN p = chunk_size + span_size -> e <> [] ->
+  get_chunk_hashes H chunk_size span_size chunk_size false a [(KHex a, p ++ e)]
+    {| queries := []; wend := WOk |} None = ([(a, p ++ e)], GOk)
+  /\ ~ cac_valid H chunk_size span_size a (p ++ e).
+Proof.
+  intros (Hs & Hb & Hh) Hl He. split.
+  - unfold Model.get_chunk_hashes. cbn [plookup]. rewrite beq_refl.
+    cbn [Model.check_entries andb]. unfold Model.chain_write.
+    assert (Hlen : lenN (p ++ e) = lenN p + lenN e) by (rewrite !lenN_length, app_length; lia).
+    destruct (N.ltb_spec (lenN (p ++ e)) span_size) as [Hc|Hc]; [lia|].
+    assert (Hspan : span_of span_size (p ++ e) = span_of span_size p)
+      by (unfold span_of; now apply takeN_app_le).
+    assert (Hdata : data_of span_size (p ++ e) = data_of span_size p ++ e).
+    { unfold data_of. rewrite skipn_app. rewrite lenN_length in Hs.
+      replace (N.to_nat span_size - length p)%nat with 0%nat by lia. reflexivity. }
+    unfold Model.hasher_sum, hasher_write. cbn [app]. change (lenN (@nil N)) with 0.
+    rewrite N.sub_0_r, Hspan, Hdata.
+    assert (Hd : lenN (data_of span_size p) = chunk_size) by (unfold data_of; rewrite lenN_skipn; lia).
+    rewrite takeN_app_le by lia. rewrite takeN_all by lia. rewrite Hh, beq_refl.
+    cbn [wend queries seen_of filter put_all plookup]. rewrite beq_refl. reflexivity.
+  - intros (_ & Hb' & _). rewrite lenN_length, app_length in Hb'. rewrite lenN_length in Hl.
+    destruct e; [congruence|]. cbn [length] in Hb'. lia.
+Qed.
+
+(** the hypotheses are satisfiable for every configuration (constant hash) *)
+Lemma unbounded_witness_exists :
+  exists (a p e : list N),
+    cac_valid (fun _ _ => []) chunk_size span_size a p /\ lenN p = chunk_size + span_size /\ e <> [].
+Proof.
+  exists [], (repeat 0 (N.to_nat (chunk_size + span_size))), [1].
+  assert (Hl : lenN (repeat 0 (N.to_nat (chunk_size + span_size))) = chunk_size + span_size)
+    by (rewrite lenN_length, repeat_length; lia).
+  repeat split; try discriminate; rewrite ?Hl; lia.
+Qed.
+
+End Unbounded.
